@@ -106,23 +106,23 @@ def search(R, modname, version, depth, finals=None, pool_lines=None, merge=True,
     levels = []
     sample = None
     for d in range(1, depth + 1):
-        nxt = []
         args = [(modname, version, h, finals, pool_lines) for h in frontier]
+        cand = {}
+        unmerged = []
         for out, a in core.pmap('vp.engb', 'expand', args, chunksize=4):
             acc.merge(a)
             for h2, s in out:
                 trans += 1
                 if not merge:
                     seen.add(s)
-                    nxt.append(h2)
+                    unmerged.append(h2)
                 elif s not in seen:
-                    seen.add(s)
-                    nxt.append(h2)
-        # deterministic order of the next frontier (results arrive unordered)
-        nxt.sort()
-        if merge:
-            # several histories of this level may reach the same new state: keep the smallest
-            pass
+                    # several histories of this level may reach the same new state: the smallest history
+                    # represents it, so the search does not depend on the order results arrive in
+                    if s not in cand or h2 < cand[s]:
+                        cand[s] = h2
+        seen.update(cand)
+        nxt = sorted(unmerged) if not merge else sorted(cand.values())
         frontier = nxt
         levels.append({'depth': d, 'states': len(seen), 'frontier': len(frontier), 'transitions': trans})
         if frontier:
